@@ -80,7 +80,9 @@ func (lbc *LoadBalancerController) syncGlobalConfiguration(task task) {
 	} else {
 		nl.Debugf(lbc.Logger, "Adding or Updating GlobalConfiguration: %v\n", key)
 
-		gc := obj.(*conf_v1.GlobalConfiguration)
+		// validation replaces spec.listeners in place by the listeners that passed: work on a copy, the object in the
+		// informer's store is shared with the informer goroutine and must not be written
+		gc := obj.(*conf_v1.GlobalConfiguration).DeepCopy()
 		changes, problems, validationErr = lbc.configuration.AddOrUpdateGlobalConfiguration(gc)
 	}
 
